@@ -148,7 +148,7 @@ def random_D(rng: random.Random, profile: str, small: bool = False) -> dict:
             if targets and rng.random() < 0.6:
                 segs[rng.randrange(nseg)].append({"op": "push", "src": rng.choice(targets)})
             if rng.random() < 0.3:
-                segs[rng.randrange(nseg)].append({"op": "sched", "delta": rng.choice([0, 1, 2, 4]), "prog": rng.choice(job_progs)})
+                segs[rng.randrange(nseg)].append({"op": "sched", "delta": rng.choice([0, 1, 2, 4, -1, -2]), "prog": rng.choice(job_progs)})
             if rng.random() < 0.15:
                 segs[rng.randrange(nseg)].append({"op": "raise"})
             handlers.append(new_prog(segs))
@@ -159,7 +159,7 @@ def random_D(rng: random.Random, profile: str, small: bool = False) -> dict:
         prog[pre[0] - 1] = [[{"op": "raise"}]]
     if small:
         job_progs = [noop_job, noop_job, raising_job, resched_job]
-    jobs = [{"when": rng.randint(0, tmax + 3), "prog": rng.choice(job_progs)} for _ in range(rng.choice([0, 0, 1, 2] if small else [0, 1, 2, 4]))]
+    jobs = [{"when": rng.randint(0, tmax + 3), "prog": rng.choice(job_progs)} for _ in range(rng.choice([0, 0, 1, 2] if small else [0, 1, 2, 4, 7, 9]))]
     resched = any(e.get("op") == "sched" for p in job_progs for seg in prog[p - 1] for e in seg)
     return base_D(ns=ns, evs=evs, hs=hs, pre=pre, post=post, prog=prog, jobs=jobs,
                   maxc=rng.choice([1, 1, 2] if small else [1, 2, 3, 50]), jobsReschedule=resched,
